@@ -62,6 +62,10 @@ RULE = ("node classes: plain NodeMixin, LightNodeMixin, and a class with value _
         "every call. Distinct = distinct case; non-trivial = at least 3 nodes in one tree.")
 
 
+def _sorted_tree(t):
+    return [t[0], sorted((_sorted_tree(c) for c in t[1]), key=lambda c: c[0])]
+
+
 def generate(tier, rng):
     nmax = 5 if tier == "quick" else 7
     for n in range(1, nmax + 1):
@@ -81,6 +85,9 @@ def generate(tier, rng):
         labs = gen.tree_labels(t)
         tups = [[rng.choice(labs) for _ in range(rng.choice([2, 2, 3, 4]))] for _ in range(12)]
         yield {"fam": "nav", "trees": [t], "ca": tups, "cls": rng.choice(["nm", "light", "eq", "falsy"])}
+        if rng.random() < 0.5:
+            # a class overriding the public `children` attribute (a sorted view of the stored list)
+            yield {"fam": "nav", "trees": [_sorted_tree(t)], "ca": tups, "cls": "sortedview"}
     # scale: wide and deep trees (cut-offs such as "above 32 children / ancestors" never engage on small trees)
     for sh in gen.big_shapes(rng, tier, 300):
         t = gen.labelled(sh, rng, True)
